@@ -812,31 +812,39 @@ def blocks(data, min_len=2, max_len=np.inf, wrap=False, digits=None, only_nonzer
         # last point is in a block
         last = len(blocks) > 0 and blocks[-1][-1] == (len(data) - 1)
 
-        # CASE: first and last point are BOTH in block: combine blocks
+        # a single run has nothing to combine on the ring
+        if len(infl_len) == 1:
+            return blocks
+
+        # the run at the start and the run at the end are one run on
+        # the ring: it is a block only if the combined length is eligible
+        combined = infl_len[0] + infl_len[-1]
+        eligible = combined >= min_len and combined <= max_len
+        # the block that combines both ends
+        new_block = np.append(np.arange(infl[-2], infl[-1]), np.arange(infl[0], infl[1]))
+
         if first and last:
-            blocks[0] = np.append(blocks[-1], blocks[0])
+            # both ends were blocks: one combined block or none
             blocks.pop()
-        else:
-            # combined length
-            combined = infl_len[0] + infl_len[-1]
-            # exit if lengths aren't OK
-            if combined < min_len or combined > max_len:
-                return blocks
-            # new block combines both ends
-            new_block = np.append(
-                np.arange(infl[-2], infl[-1]), np.arange(infl[0], infl[1])
-            )
-            # we are in a first OR last situation now
-            if first:
-                # first was already in a block so replace it with combined
+            if eligible:
                 blocks[0] = new_block
-            elif last:
-                # last was already in a block so replace with superset
+            else:
+                blocks.pop(0)
+        elif first:
+            # first was already in a block so replace it with combined
+            if eligible:
+                blocks[0] = new_block
+            else:
+                blocks.pop(0)
+        elif last:
+            # last was already in a block so replace with superset
+            if eligible:
                 blocks[-1] = new_block
             else:
-                # both are false
-                # combined length generated new block
-                blocks.append(new_block)
+                blocks.pop()
+        elif eligible:
+            # neither end was a block but combined they are
+            blocks.append(new_block)
 
     return blocks
 
